@@ -182,3 +182,193 @@ Proof.
   intros H. unfold do_dial_done. destruct (get_dial s r) as [d|]; [|exact H]. destruct (d_stage d); try exact H.
   destruct (d_polled d) as [[|tid]|]; cbn [wake_poller]; [apply K_wake_req|apply K_wake_task|]; apply K_upd_dial; exact H.
 Qed.
+
+(* ---------------------------------------------------------------- background tasks *)
+Lemma K_handback cfg tid c t b m0 s :
+  K None [] m0 s -> nth tid (tasks s) None = Some (TWhenReady c t) ->
+  K None [] m0 (let s0 := finish_task tid (emit (ERdy c b) s) in
+                if is_open s0 c && negb (t =? 0) && g_pool cfg then pool_push (g_max_idle cfg) t c s0 else drop_conn c s0).
+Proof.
+  intros H Ht. cbv zeta.
+  pose proof (proj2 (kt _ _ _ _ _ _ H) tid) as Htk. rewrite Ht in Htk. cbn [task_tok_ok] in Htk.
+  assert (H0 : K None [c] m0 (finish_task tid (emit (ERdy c b) s))).
+  { pose proof (K_finish_task [] None None [] m0 tid (emit (ERdy c b) s)) as Hf.
+    change (nth tid (tasks (emit (ERdy c b) s)) None) with (nth tid (tasks s) None) in Hf. rewrite Ht in Hf. cbn [taskT app] in Hf. apply Hf.
+    apply K_emit; [exact Logic.I|intros r' E; discriminate|exact H]. }
+  destruct (is_open (finish_task tid (emit (ERdy c b) s)) c && negb (t =? 0) && g_pool cfg) eqn:Hg; [|apply K_drop_conn; exact H0].
+  apply andb_true_iff in Hg. destruct Hg as [Hg _]. apply andb_true_iff in Hg. destruct Hg as [_ Hz].
+  destruct t as [|i]; [discriminate|]. apply K_pool_push; [exact H0| |intros r E; discriminate].
+  change (ntok (finish_task tid (emit (ERdy c b) s))) with (ntok s). lia.
+Qed.
+
+Lemma K_run_task cfg tid m0 s : K None [] m0 s -> K None [] m0 (run_task cfg tid s).
+Proof.
+  intros H. unfold run_task. pose proof (proj2 (kt _ _ _ _ _ _ H) tid) as Htk.
+  destruct (nth tid (tasks s) None) as [[c t|rid t own]|] eqn:Ht; [| |exact H]; cbn [task_tok_ok] in Htk.
+  - (* hand-back *)
+    pose proof (K_finish_task [] None None [] m0 tid s H) as Hf. rewrite Ht in Hf. cbn [taskT app] in Hf.
+    destruct (K_in_flight _ _ _ _ _ _ _ Hf) as [cn0 [Hc0 _]]. change (get_conn (finish_task tid s) c) with (get_conn s c) in Hc0. rewrite Hc0.
+    destruct (negb (c_open cn0)); [apply (K_handback cfg tid c t false m0 s H Ht)|].
+    destruct (c_share cn0 || c_ready cn0); [apply (K_handback cfg tid c t true m0 s H Ht)|].
+    apply K_upd_conn; [intros cn; reflexivity|exact H].
+  - (* delayed connector *)
+    destruct (K_connector_poll [] None None rid (ByTask tid) [] m0 s H) as (H1 & Ht1 & Hq1).
+    assert (Hn1 : ntok (snd (connector_poll rid (ByTask tid) s)) = ntok s) by (unfold ntok; rewrite Ht1; reflexivity).
+    assert (Htk1 : nth tid (tasks (snd (connector_poll rid (ByTask tid) s))) None = Some (TDelayed rid t own)).
+    { rewrite <- Ht. f_equal. unfold connector_poll. dm; reflexivity. }
+    destruct (connector_poll rid (ByTask tid) s) as [r s1]. cbn [fst snd] in *.
+    assert (Hcan : forall F st, K None F m0 st -> K None F m0 (if g_pool cfg && negb (t =? 0) && own then pool_cancel t rid st else st))
+      by (intros F st HK; destruct (g_pool cfg && negb (t =? 0) && own); [apply K_pool_cancel|]; exact HK).
+    assert (Hfin : forall F st, nth tid (tasks st) None = Some (TDelayed rid t own) -> K None F m0 st -> K None F m0 (finish_task tid st)).
+    { intros F st E HK. pose proof (K_finish_task [] None None F m0 tid st HK) as Hf. rewrite E in Hf. exact Hf. }
+    destruct r as [|[c|e]]; cbn [cres app] in H1.
+    + exact H1.
+    + destruct (K_register None None cfg t c [] m0 s1 H1) as (H2 & Hfst & Hsnd); [intros _ _; lia|intros r E; discriminate|].
+      pose proof (Tr_register cfg t c s1) as T2.
+      destruct (register cfg t c s1) as [p s2]. cbn [fst snd] in *.
+      assert (Hn2 : ntok s2 = ntok s) by (rewrite (ntok_Tr _ _ _ _ _ T2); exact Hn1).
+      assert (Htk2 : nth tid (tasks s2) None = Some (TDelayed rid t own)).
+      { destruct (f_keep _ _ _ _ _ (proj1 T2) _ _ _ _ Htk1) as [E|E]; [exact E|discriminate]. }
+      set (s3 := if g_pool cfg && negb (t =? 0) && own then pool_cancel t rid s2 else s2).
+      assert (T3 : Tr None None None s2 s3) by (subst s3; destruct (g_pool cfg && negb (t =? 0) && own); [apply Tr_pool_cancel|apply Tr_refl]).
+      assert (Htk3 : nth tid (tasks s3) None = Some (TDelayed rid t own)).
+      { destruct (f_keep _ _ _ _ _ (proj1 T3) _ _ _ _ Htk2) as [E|E]; [exact E|discriminate]. }
+      apply K_pooled_drop.
+      * unfold ptok_ok. change (ntok (finish_task tid s3)) with (ntok s3). rewrite (ntok_Tr _ _ _ _ _ T3), Hn2. destruct Hsnd as [->| ->]; lia.
+      * rewrite Hfst. apply Hfin; [exact Htk3|]. apply Hcan. exact H2.
+    + apply Hfin; [|apply Hcan; exact H1].
+      set (s3 := if g_pool cfg && negb (t =? 0) && own then pool_cancel t rid s1 else s1).
+      assert (T3 : Tr None None None s1 s3) by (subst s3; destruct (g_pool cfg && negb (t =? 0) && own); [apply Tr_pool_cancel|apply Tr_refl]).
+      destruct (f_keep _ _ _ _ _ (proj1 T3) _ _ _ _ Htk1) as [E|E]; [exact E|discriminate].
+Qed.
+
+Lemma K_bg_loop cfg m0 fuel : forall s, K None [] m0 s -> K None [] m0 (bg_loop cfg fuel s).
+Proof.
+  induction fuel as [|f IH]; intros s H; cbn [bg_loop]; [exact H|].
+  destruct (runq s) as [|tid rest]; [exact H|]. apply IH. apply K_run_task. revert H. apply K_frame; reflexivity.
+Qed.
+
+(* ---------------------------------------------------------------- Issue *)
+Lemma get_req_add rq d st r : get_req (add_req rq d st) r = if Nat.eq_dec r (List.length (reqs st)) then Some rq else get_req st r.
+Proof.
+  unfold get_req, add_req. cbn [reqs set_dials set_reqs]. destruct (Nat.eq_dec r (List.length (reqs st))) as [->|Hne].
+  - apply nth_error_app_last.
+  - destruct (Nat.lt_ge_cases r (List.length (reqs st))) as [Hl|Hl]; [apply nth_error_app1; exact Hl|].
+    rewrite (proj2 (nth_error_None _ _)) by (rewrite app_length; cbn; lia). symmetry. apply nth_error_None. exact Hl.
+Qed.
+
+Lemma K_add_req rq d F m0 s :
+  K None (reqA rq ++ F) m0 s -> reqH rq = [] -> req_tok_ok (ntok s) rq ->
+  (forall ck t b, rq = RCheckout ck -> In (List.length (reqs s), b) (waitingl s t) -> k_token ck = t /\ k_slot ck = None) ->
+  (forall t, NoDup (map fst (waitingl s t)) /\ forall w b, In (w, b) (waitingl s t) -> w <= List.length (reqs s)) ->
+  List.length (reqs s) < List.length (m_reqs (tm m0 s)) ->
+  K None F m0 (add_req rq d s).
+Proof.
+  intros [A1 A2 A3 A4 A5 A6 A7 A8] HH Htk Hw Hrange Hm. constructor; auto.
+  - intros c. pose proof (A1 c) as E. unfold Hs, LA, LH, reqs_x in *. cbn [add_req toks reqs tasks set_dials set_reqs].
+    change (LT (add_req rq d s)) with (LT s). change (refs (add_req rq d s) c) with (refs s c).
+    rewrite !flat_map_app, !cnt_app in *. cbn [flat_map]. rewrite HH, !app_nil_r, cnt_nil. lia.
+  - intros r c t f p Hr _. rewrite get_req_add in Hr. destruct (Nat.eq_dec r (List.length (reqs s))) as [->|Hne]; [|eapply A4; eauto; discriminate].
+    inversion Hr; subst rq. cbn in HH. discriminate.
+  - intros t. destruct (A5 t) as [B1 B2]. change (waitingl (add_req rq d s) t) with (waitingl s t). split; [exact B1|].
+    intros w b Hin. split; [change (reqs (add_req rq d s)) with (reqs s ++ [rq]); rewrite app_length; pose proof (proj2 (Hrange t) w b Hin) as Hle; cbn [List.length]; lia|].
+    intros ck _ Hr. rewrite get_req_add in Hr. destruct (Nat.eq_dec w (List.length (reqs s))) as [->|Hne].
+    + inversion Hr; subst rq. destruct (Hw ck t b eq_refl Hin) as [E1 E2]. auto.
+    + destruct (Nat.lt_ge_cases w (List.length (reqs s))) as [Hl|Hl].
+      * destruct (B2 w b Hin) as [_ C2]. apply C2; [discriminate|exact Hr].
+      * unfold get_req in Hr. rewrite (proj2 (nth_error_None _ _) Hl) in Hr. discriminate.
+  - destruct A6 as [B1 B2]. split; [|exact B2]. intros r q Hr _. rewrite get_req_add in Hr.
+    destruct (Nat.eq_dec r (List.length (reqs s))); [inversion Hr; subst q; exact Htk|eapply B1; eauto; discriminate].
+  - change (reqs (add_req rq d s)) with (reqs s ++ [rq]). rewrite app_length. cbn [List.length]. change (tm m0 (add_req rq d s)) with (tm m0 s). lia.
+Qed.
+
+Lemma K_range hx x F m0 s : KD [] hx x F m0 s ->
+  forall t, NoDup (map fst (waitingl s t)) /\ forall w b, In (w, b) (waitingl s t) -> w < List.length (reqs s).
+Proof. intros H t. destruct (kw _ _ _ _ _ _ H t) as [B1 B2]. split; [exact B1|]. intros w b Hin. apply (B2 w b Hin). Qed.
+
+Lemma add_req_upd_tok rq d t g s : add_req rq d (upd_tok t g s) = upd_tok t g (add_req rq d s).
+Proof. destruct t; reflexivity. Qed.
+
+Lemma NoDup_app_single {A} (l : list A) a : NoDup l -> ~ In a l -> NoDup (l ++ [a]).
+Proof.
+  induction l as [|b l IH]; cbn; intros H Hn; [constructor; [intros []|constructor]|].
+  inversion H; subst. constructor.
+  - intros Hin. apply in_app_or in Hin. destruct Hin as [Hin|[E|[]]]; [contradiction|]. apply Hn. left. symmetry. exact E.
+  - apply IH; [assumption|]. intros Hin. apply Hn. right. exact Hin.
+Qed.
+
+(* append the new request to the waiting queue of its token (possibly setting the mark) *)
+Lemma K_tok_waiting_app F m0 i g b ck s :
+  K None F m0 s -> i < ntok s ->
+  (forall p, p_idle (g p) = p_idle p /\ p_waiting (g p) = p_waiting p ++ [(List.length (reqs s) - 1, b)]) ->
+  get_req s (List.length (reqs s) - 1) = Some (RCheckout ck) -> k_token ck = S i -> k_slot ck = None ->
+  (forall t w b', In (w, b') (waitingl s t) -> w < List.length (reqs s) - 1) ->
+  K None F m0 (upd_tok (S i) g s).
+Proof.
+  intros H Hi Hg Hr Ht Hs Hfresh.
+  apply (K_upd_tok [] None None F F m0 i g s Hi); [| |exact H].
+  - intros c. unfold tokA. rewrite (proj1 (Hg _)). reflexivity.
+  - rewrite (proj2 (Hg _)). destruct (kw _ _ _ _ _ _ H (S i)) as [B1 B2]. fold (waitingl s (S i)). split.
+    + rewrite map_app. cbn [map fst]. apply NoDup_app_single; [exact B1|].
+      intros Hin. apply in_map_iff in Hin. destruct Hin as [[w b'] [E Hin]]. cbn in E. subst w.
+      pose proof (Hfresh _ _ _ Hin). lia.
+    + intros w b' Hin. apply in_app_or in Hin. destruct Hin as [Hin|[E|[]]]; [apply (B2 w b' Hin)|]. inversion E; subst w b'.
+      split; [apply get_req_lt in Hr; exact Hr|]. intros ck' _ Hr'. rewrite Hr in Hr'. inversion Hr'; subst ck'. auto.
+Qed.
+
+Lemma fold_track_ev_reqs_len es : forall m, List.length (m_reqs (fold_left track_ev es m)) = List.length (m_reqs m).
+Proof. induction es as [|e es IH]; intros m; cbn [fold_left]; [reflexivity|]. rewrite IH. apply track_ev_reqs_len. Qed.
+Lemma tm_reqs_len m0 s : List.length (m_reqs (tm m0 s)) = List.length (m_reqs m0).
+Proof. unfold tm. apply fold_track_ev_reqs_len. Qed.
+
+Lemma K_do_issue cfg u p m0 s :
+  K None [] m0 s -> TL s -> List.length (reqs s) < List.length (m_reqs m0) -> K None [] m0 (do_issue cfg u p s).
+Proof.
+  intros H HTL Hm. unfold do_issue. cbv zeta.
+  set (s0 := set_woken (woken s ++ [false]) s).
+  assert (H0 : K None [] m0 s0) by (revert H; apply K_frame; reflexivity).
+  change (List.length (reqs s)) with (List.length (reqs s0)).
+  assert (Hadd : forall st rq d, K None (reqA rq ++ []) m0 st -> List.length (reqs st) = List.length (reqs s) ->
+            reqH rq = [] -> req_tok_ok (ntok st) rq -> K None [] m0 (add_req rq d st)).
+  { intros st rq d HK Hl HH Htk. apply K_add_req; auto.
+    - intros ck t b _ Hin. pose proof (proj2 (K_range _ _ _ _ _ HK t) _ _ Hin). lia.
+    - intros t. destruct (K_range _ _ _ _ _ HK t) as [B1 B2]. split; [exact B1|]. intros w b Hin. specialize (B2 w b Hin). lia.
+    - rewrite tm_reqs_len, Hl. exact Hm. }
+  destruct (nth u (g_uris cfg) None) as [k|].
+  2: { apply (Hadd s0); auto. exact Logic.I. }
+  destruct (negb (g_pool cfg)).
+  { apply (Hadd s0); auto. cbn. split; [lia|]. intros p0 E. discriminate. }
+  destruct (key_insert_view k s0) as (R1 & _ & _ & _ & _ & TL1). cbv zeta in *. destruct (TL1 HTL) as [_ Ht1]. clear TL1.
+  pose proof (K_key_insert [] None None k [] m0 s0 H0) as H1.
+  destruct (key_insert k s0) as [t s1]. cbn [fst snd] in *.
+  pose proof (K_pool_pop None None (g_timeout cfg) t [] m0 s1 H1) as H2.
+  pose proof (Tr_pool_pop (g_timeout cfg) t s1) as T2. pose proof (rd_pool_pop (g_timeout cfg) t s1) as [R2 _].
+  destruct (pool_pop (g_timeout cfg) t s1) as [found s2]. cbn [fst snd] in *.
+  assert (Hn2 : ntok s2 = List.length (toks s1)) by (apply (ntok_Tr _ _ _ _ _ T2)).
+  assert (Hl2 : List.length (reqs s2) = List.length (reqs s)) by (rewrite R2, R1; reflexivity).
+  change (List.length (reqs s0)) with (List.length (reqs s)). rewrite <- Hl2.
+  destruct found as [c|]; cbn [oconn app] in H2.
+  - apply (Hadd s2); auto. cbn. split; [lia|]. intros p0 E. discriminate.
+  - destruct t as [|i]; [lia|].
+    set (pending := match p_marker (get_tok s2 (S i)) with Some _ => true | None => false end).
+    set (rid := List.length (reqs s2)).
+    assert (Hgen : forall g ck d, (forall q, p_idle (g q) = p_idle q /\ p_waiting (g q) = p_waiting q ++ [(rid, pending)]) ->
+              k_token ck = S i -> k_slot ck = None -> k_conn ck = None ->
+              K None [] m0 (add_req (RCheckout ck) d (upd_tok (S i) g s2))).
+    { intros g ck d Hg Etk Esl Ecn. rewrite add_req_upd_tok.
+      assert (HA : K None [] m0 (add_req (RCheckout ck) d s2)).
+      { apply (Hadd s2); auto.
+        - unfold reqA, ck_conns. rewrite Esl, Ecn. exact H2.
+        - cbn. rewrite Etk, Esl. split; [lia|]. intros p0 E. discriminate. }
+      assert (Hlen : List.length (reqs (add_req (RCheckout ck) d s2)) - 1 = rid) by (unfold add_req; cbn; rewrite app_length; cbn; unfold rid; lia).
+      apply (K_tok_waiting_app [] m0 i g pending ck); auto.
+      - change (ntok (add_req (RCheckout ck) d s2)) with (ntok s2). lia.
+      - rewrite Hlen. exact Hg.
+      - rewrite Hlen. rewrite get_req_add. unfold rid. destruct (Nat.eq_dec (List.length (reqs s2)) (List.length (reqs s2))); [reflexivity|congruence].
+      - intros t w b' Hin. rewrite Hlen. apply (proj2 (K_range _ _ _ _ _ H2 t) w b' Hin). }
+    destruct pending eqn:Hp.
+    + apply Hgen; try reflexivity; intros q; split; reflexivity.
+    + destruct p.
+      * apply Hgen; try reflexivity; intros q; split; reflexivity.
+      * cbn [negb]. rewrite upd_tok_twice. apply Hgen; try reflexivity; intros q; split; reflexivity.
+Qed.
